@@ -82,37 +82,53 @@ def relative (fromP to : P) : Option P :=
 def resolve (fromFile rel : P) : P :=
   normalize (pushPath (pop (normalize fromFile)) rel)
 
-/-! ### text level (mirrors `Path::components` on Unix and `PathBuf` rendering) -/
+/-! ### text level (mirrors `Path::components` on Unix and `PathBuf` rendering), over `List Char` -/
 
-def splitSlash (cs : List Char) : List (List Char) :=
-  let rec go : List Char → List Char → List (List Char)
-    | [], cur => [cur.reverse]
-    | '/' :: r, cur => cur.reverse :: go r []
-    | c :: r, cur => go r (c :: cur)
-  go cs []
+def splitSlashGo : List Char → List Char → List (List Char)
+  | [], cur => [cur.reverse]
+  | '/' :: r, cur => cur.reverse :: splitSlashGo r []
+  | c :: r, cur => splitSlashGo r (c :: cur)
 
-/-- `Path::new(s).components()` for Unix -/
-def components (s : String) : P :=
-  let cs := s.toList
-  let isAbs := cs.head? == some '/'
-  let segs := (splitSlash cs).filter (fun x => !x.isEmpty)
-  let body : P := (segs.zipIdx).filterMap (fun (seg, i) =>
-    if seg == ['.'] then (if i == 0 && !isAbs then some .cur else none)
-    else if seg == ['.', '.'] then some .parent
-    else some (.normal (String.ofList seg)))
-  if isAbs then .root :: body else body
+/-- split at every '/' (empty segments kept) -/
+def splitSlash (cs : List Char) : List (List Char) := splitSlashGo cs []
 
-def compText : Comp → String
-  | .root => "/"
-  | .cur => "."
-  | .parent => ".."
-  | .normal s => s
+/-- segments to components: empty segments (repeated or trailing '/') are skipped, "." is kept only as
+    the very first component of a relative path (`keepCur`), ".." is the parent component -/
+def segsToComps (keepCur : Bool) : List (List Char) → P
+  | [] => []
+  | seg :: rest =>
+    if seg = [] then segsToComps keepCur rest
+    else if seg = ['.'] then (if keepCur then .cur :: segsToComps false rest else segsToComps false rest)
+    else if seg = ['.', '.'] then .parent :: segsToComps false rest
+    else .normal (String.ofList seg) :: segsToComps false rest
 
-/-- text of a PathBuf built by pushing these components one by one -/
-def render : P → String
-  | [] => ""
-  | [.root] => "/"
-  | .root :: rest => "/" ++ "/".intercalate (rest.map compText)
-  | cs => "/".intercalate (cs.map compText)
+/-- `Path::new(s).components()` for Unix, on the characters of the path -/
+def componentsL (cs : List Char) : P :=
+  if cs.head? = some '/' then .root :: segsToComps false (splitSlash cs)
+  else segsToComps true (splitSlash cs)
+
+def components (s : String) : P := componentsL s.toList
+
+def compTextL : Comp → List Char
+  | .root => ['/']
+  | .cur => ['.']
+  | .parent => ['.', '.']
+  | .normal s => s.toList
+
+def compText (c : Comp) : String := String.ofList (compTextL c)
+
+def joinSlash : List (List Char) → List Char
+  | [] => []
+  | [a] => a
+  | a :: b :: rest => a ++ '/' :: joinSlash (b :: rest)
+
+/-- characters of a PathBuf built by pushing these components one by one -/
+def renderL : P → List Char
+  | [] => []
+  | [.root] => ['/']
+  | .root :: rest => '/' :: joinSlash (rest.map compTextL)
+  | cs => joinSlash (cs.map compTextL)
+
+def render (p : P) : String := String.ofList (renderL p)
 
 end NitroVerif.Paths
